@@ -47,7 +47,639 @@ fn degenerate(s: &mut Session) -> (Prob, Sets) {
     (p, st)
 }
 
+
+// =====================================================================================
+// round 3: report-specific channels.  `report`: a history of solves on ONE solver object with
+// per-solve settings (max_iter / time_limit / tolerances changed through the public
+// `settings` field) and data updates; every report is re-derived independently:
+//   * the shared oracle `check_c03` (obj_val, obj_val_dual, r_prim, r_dual recomputed in
+//     double-double on the USER's data; lengths; iterations = observed KKT updates; Almost* ⇒
+//     the reduced documented test / certificate on the user's data);
+//   * whose figures: the six figures of the final `info` are, bit for bit, those recorded for
+//     the iterate that was un-scaled into the solution (last pass, or last but one after a
+//     rollback), `ktratio` / `res_*_inf` those of the LAST pass
+//     (C03.full_report_figures_of_returned_iterate);
+//   * `gap_abs`, `gap_rel` re-formed from the reported objectives, bit for bit;
+//   * the verdict: the status before `Info::post_process` is reconstructed from the observed
+//     decisions of the loop, `check_convergence` is re-implemented here and must reproduce the
+//     final status from the final figures and the REDUCED tolerances — soundness (`Almost*`
+//     only when the reduced test holds on these figures) and completeness (a limit / error
+//     status only when it does not) — C03.full_final_status_is_post_process, almost_only_if;
+//     a converged status must be reproduced by the FULL tolerances on the last pass;
+//   * nothing stale: solve_time of the solution is the one `info` holds after this solve, and
+//     all of the above holds for every solve of the history (C03.full_report_not_stale).
+// `info.reset`: `DefaultInfo::reset` + `save_scalars` against the model `Info.reset`.
+// =====================================================================================
+use clarabel::solver::traits::Info;
+use clarabel::solver::*;
+use clarabel::verif_hooks::observer;
+
+const ST_NAMES: [&str; 11] = ["Unsolved", "Solved", "PrimalInfeasible", "DualInfeasible", "AlmostSolved",
+    "AlmostPrimalInfeasible", "AlmostDualInfeasible", "MaxIterations", "MaxTime", "NumericalError", "InsufficientProgress"];
+
+fn same(a: f64, b: f64) -> bool {
+    a.to_bits() == b.to_bits() || (a.is_nan() && b.is_nan())
+}
+
+/// the status `info` holds when the loop is left, reconstructed from the recorded decisions
+fn pre_status(ev: &[observer::Event]) -> usize {
+    let mut cur = 0usize;
+    for e in ev {
+        if let observer::Event::Flag(name, v) = e {
+            match *name {
+                "isdone" => {
+                    // "(true, MaxIterations, 3)"
+                    let mid = v.split(", ").nth(1).unwrap_or("");
+                    cur = ST_NAMES.iter().position(|n| *n == mid).unwrap_or(99);
+                }
+                "insufficient_progress" => {
+                    if v.starts_with("Update") {
+                        cur = 0;
+                    }
+                }
+                "scaling_success" => {
+                    if v.starts_with("(false") {
+                        cur = 9;
+                    }
+                }
+                "numerical_error" => {
+                    if v.ends_with("Fail)") {
+                        cur = 9;
+                    }
+                }
+                "small_step" => {
+                    if v == "Fail" {
+                        cur = 10;
+                    }
+                }
+                _ => {}
+            }
+        }
+    }
+    cur
+}
+
+fn nine(p: &observer::IterSnapshot) -> Vec<f64> {
+    vec![p.cost_primal, p.cost_dual, p.res_primal, p.res_dual, p.res_primal_inf, p.res_dual_inf, p.gap_abs, p.gap_rel, p.ktratio]
+}
+
+fn render_report(solver: &DefaultSolver<f64>, o: &SolveOut, ev: &[observer::Event], sfx: &str) -> String {
+    let passes: Vec<&observer::IterSnapshot> =
+        ev.iter().filter_map(|e| if let observer::Event::Pass(b) = e { Some(&**b) } else { None }).collect();
+    let nan9 = vec![f64::NAN; 9];
+    let last = passes.last().map(|p| nine(p)).unwrap_or(nan9.clone());
+    // whose figures: the loop was left through the rollback (`Fail` of the insufficient-progress
+    // checkpoint) => the last pass but one, otherwise the last pass.  (Not the `snap` search of
+    // the shared code: two different internal iterates can un-scale to bit-identical vectors.)
+    let mut own = 0usize;
+    for e in ev {
+        if let observer::Event::Flag("insufficient_progress", v) = e {
+            own = if v == "Fail" { 1 } else { 0 };
+        }
+    }
+    let (figs, own_match) = if own < passes.len() {
+        let ps = passes[passes.len() - 1 - own];
+        let eq = &solver.data.equilibration;
+        let inf = is_infeasible_status(solver.info.status);
+        let scaleinv = if inf { 1.0 / ps.kappa } else { 1.0 / ps.tau };
+        let cinv = 1.0 / eq.c;
+        let beq = |a: &[f64], b: &[f64]| a.len() == b.len() && a.iter().zip(b).all(|(x, y)| same(*x, *y));
+        let x: Vec<f64> = ps.x.iter().zip(&eq.d).map(|(a, b)| (a * b) * scaleinv).collect();
+        let z: Vec<f64> = ps.z.iter().zip(&eq.e).map(|(a, b)| (a * b) * (scaleinv * cinv)).collect();
+        let sv: Vec<f64> = ps.s.iter().zip(&eq.einv).map(|(a, b)| (a * b) * scaleinv).collect();
+        (nine(ps), beq(&x, &solver.variables.x) && beq(&z, &solver.variables.z) && beq(&sv, &solver.variables.s))
+    } else {
+        (nan9, false)
+    };
+    let mut lbz = f64::NAN;
+    let mut lqx = f64::NAN;
+    for e in ev {
+        if let observer::Event::Scalar(name, v) = e {
+            if *name == "dot_bz" {
+                lbz = *v;
+            } else if *name == "dot_qx" {
+                lqx = *v;
+            }
+        }
+    }
+    let (t1, t2) = (solver.solution.solve_time, solver.info.solve_time);
+    let k = |n: &str| format!("{}{}", n, sfx);
+    let extra = Line::out()
+        .u(&k("pre"), pre_status(ev))
+        .u(&k("own"), own)
+        .b(&k("own_match"), own_match)
+        .fs(&k("figs"), &figs)
+        .fs(&k("last"), &last)
+        .f(&k("lbz"), lbz)
+        .f(&k("lqx"), lqx)
+        .b(&k("time_eq"), t1.to_bits() == t2.to_bits())
+        .b(&k("time_ok"), t1.is_finite() && t1 > 0.0)
+        .done();
+    format!("{} {}", render_solve_sfx(o, sfx), extra)
+}
+
+/// settings of solve number `k` of a history: the base settings with the per-solve overrides
+fn sets_at(r: &Req, k: usize) -> Sets {
+    let mut st = Sets::parse(r);
+    for j in 1..=k {
+        if r.has(&format!("mi_{}", j)) {
+            st.max_iter = r.u(&format!("mi_{}", j)) as u32;
+        }
+        if r.has(&format!("tl_{}", j)) {
+            st.time_limit = r.f(&format!("tl_{}", j));
+        }
+        if r.has(&format!("tol_{}", j)) {
+            let t = r.fs(&format!("tol_{}", j));
+            st.tol = [t[0], t[1], t[2], t[3], t[4], t[5]];
+        }
+        if r.has(&format!("rtol_{}", j)) {
+            let t = r.fs(&format!("rtol_{}", j));
+            st.rtol = [t[0], t[1], t[2], t[3], t[4], t[5]];
+        }
+    }
+    st
+}
+
+fn apply_tols(solver: &mut DefaultSolver<f64>, st: &Sets) {
+    let s = &mut solver.settings;
+    s.max_iter = st.max_iter;
+    s.time_limit = st.time_limit;
+    s.tol_gap_abs = st.tol[0];
+    s.tol_gap_rel = st.tol[1];
+    s.tol_feas = st.tol[2];
+    s.tol_infeas_abs = st.tol[3];
+    s.tol_infeas_rel = st.tol[4];
+    s.tol_ktratio = st.tol[5];
+    s.reduced_tol_gap_abs = st.rtol[0];
+    s.reduced_tol_gap_rel = st.rtol[1];
+    s.reduced_tol_feas = st.rtol[2];
+    s.reduced_tol_infeas_abs = st.rtol[3];
+    s.reduced_tol_infeas_rel = st.rtol[4];
+    s.reduced_tol_ktratio = st.rtol[5];
+}
+
+fn run_report(r: &Req) -> String {
+    let p = parse_prob(r);
+    let st = Sets::parse(r);
+    let steps = r.u("steps");
+    let mut solver = DefaultSolver::new(&p.P, &p.q, &p.A, &p.b, &p.cones, st.to_settings());
+    let (o, ev) = solve_once(&mut solver);
+    let mut out = render_report(&solver, &o, &ev, "_0");
+    for k in 1..=steps {
+        let mut ok = true;
+        if r.has(&format!("q_{}", k)) {
+            ok &= solver.update_q(&r.fs(&format!("q_{}", k))).is_ok();
+        }
+        if r.has(&format!("b_{}", k)) {
+            ok &= solver.update_b(&r.fs(&format!("b_{}", k))).is_ok();
+        }
+        apply_tols(&mut solver, &sets_at(r, k));
+        let (o, ev) = solve_once(&mut solver);
+        out.push_str(&format!(" upd_{}={} ", k, ok as usize));
+        out.push_str(&render_report(&solver, &o, &ev, &format!("_{}", k)));
+    }
+    out
+}
+
+/// `check_convergence` re-implemented: 0 = no verdict, 1 solved, 2 primal, 3 dual infeasible
+fn conv_table(a: &[f64], bz: f64, qx: f64, t: &[f64; 6]) -> usize {
+    if a[8] <= 1.0 && ((a[6] < t[0] || a[7] < t[1]) && a[2] < t[2] && a[3] < t[2]) {
+        1
+    } else if a[8] > (1.0 / t[5]) * 1000.0 {
+        if bz < -t[3] && a[4] < -t[4] * bz {
+            2
+        } else if qx < -t[3] && a[5] < -t[4] * qx {
+            3
+        } else {
+            0
+        }
+    } else {
+        0
+    }
+}
+
+fn check_one_report(p: &Prob, st: &Sets, out: &str, all: &Req, sfx: &str, reevaluate: bool) -> Result<(), String> {
+    if reevaluate {
+        check_report_text("c03", p, st, out, sfx)?;
+    }
+    let key = |n: &str| format!("{}{}", n, sfx);
+    let status = all.u(&key("status"));
+    let name = ST_NAMES[status];
+    let a = all.fs(&key("info"));
+    let figs = all.fs(&key("figs"));
+    let last = all.fs(&key("last"));
+    let (lbz, lqx) = (all.f(&key("lbz")), all.f(&key("lqx")));
+    let pre = all.u(&key("pre"));
+    // nothing stale in solve_time
+    if !all.b(&key("time_eq")) {
+        return Err(format!("{}: solution.solve_time differs from info.solve_time", name));
+    }
+    if !all.b(&key("time_ok")) {
+        return Err(format!("{}: solve_time is not a positive finite number", name));
+    }
+    // gap figures re-formed from the reported costs
+    let ga = (a[0] - a[1]).abs();
+    let gr = ga / 1f64.max(a[0].abs().min(a[1].abs()));
+    if !same(a[6], ga) || !same(a[7], gr) {
+        return Err(format!("{}: info.gap_abs/gap_rel = {:e}/{:e} but the costs give {:e}/{:e}", name, a[6], a[7], ga, gr));
+    }
+    // whose figures: the pass whose iterate was handed to post-processing (the last one, or the
+    // last but one when the loop was left through the rollback)
+    let own = all.u(&key("own"));
+    if !all.b(&key("own_match")) {
+        return Err(format!("{}: the variables left in the solver are not the un-scaled iterate of the pass {} back", name, own));
+    }
+    for &j in &[0usize, 1, 2, 3, 6, 7] {
+        if !same(a[j], figs[j]) {
+            return Err(format!("{}: info figure #{} = {:e} but the pass that recorded the returned iterate ({} back) computed {:e}", name, j, a[j], own, figs[j]));
+        }
+    }
+    for &j in &[4usize, 5, 8] {
+        if !same(a[j], last[j]) {
+            return Err(format!("{}: info figure #{} = {:e} but the last pass computed {:e}", name, j, a[j], last[j]));
+        }
+    }
+    // the verdict
+    if pre == 99 || pre == 0 {
+        return Err(format!("{}: the loop was left with status index {} (reconstructed)", name, pre));
+    }
+    let expected = if (7..=10).contains(&pre) {
+        match conv_table(&a, lbz, lqx, &st.rtol) {
+            0 => pre,
+            v => v + 3,
+        }
+    } else {
+        pre
+    };
+    if status != expected {
+        return Err(format!("status {} but the loop ended {} and post_process on the final figures with the reduced tolerances gives {}", name, ST_NAMES[pre], ST_NAMES[expected]));
+    }
+    let full = conv_table(&last, lbz, lqx, &st.tol);
+    if (1..=3).contains(&pre) {
+        if full != pre {
+            return Err(format!("loop ended {} but the full test on the last pass's figures gives {}", ST_NAMES[pre], ST_NAMES[full]));
+        }
+        if own != 0 {
+            return Err(format!("{}: converged but the returned iterate is not the last one", name));
+        }
+    } else if full != 0 {
+        return Err(format!("loop ended {} although the full test holds on the last pass's figures ({})", ST_NAMES[pre], ST_NAMES[full]));
+    }
+    if pre == 7 && all.u(&key("iterations")) != st.max_iter as usize {
+        return Err(format!("MaxIterations with iterations = {} != max_iter = {}", all.u(&key("iterations")), st.max_iter));
+    }
+    if pre == 8 && !(st.time_limit < f64::INFINITY) {
+        return Err("MaxTime without a time limit".into());
+    }
+    Ok(())
+}
+
+/// the part of the report check that involves no re-evaluation on the user's data
+fn check_bookkeeping(all: &Req, sfx: &str) -> Result<(), String> {
+    let key = |n: &str| format!("{}{}", n, sfx);
+    let status = all.u(&key("status"));
+    let a = all.fs(&key("info"));
+    if status == 0 || status != all.u(&key("info_status")) {
+        return Err("solution.status is Unsolved or differs from info.status".into());
+    }
+    if all.u(&key("iterations")) != all.u(&key("info_iterations")) || all.u(&key("iterations")) != all.u(&key("nkkt")) {
+        return Err("solution.iterations / info.iterations / observed KKT updates differ".into());
+    }
+    if !same(all.f(&key("r_prim")), a[2]) || !same(all.f(&key("r_dual")), a[3]) {
+        return Err("r_prim / r_dual are not info.res_primal / res_dual".into());
+    }
+    let inf = matches!(status, 2 | 3 | 5 | 6);
+    let (ov, od) = (all.f(&key("obj_val")), all.f(&key("obj_val_dual")));
+    if inf && !(ov.is_nan() && od.is_nan()) {
+        return Err("objective values are not NaN for an infeasibility status".into());
+    }
+    if !inf && !(same(ov, a[0]) && same(od, a[1])) {
+        return Err("obj_val / obj_val_dual are not info.cost_primal / cost_dual".into());
+    }
+    Ok(())
+}
+
+fn oracle_report(r: &Req, out: &str) -> Result<(), String> {
+    if out.starts_with("panic") {
+        return Ok(());
+    }
+    let mut p = parse_prob(r);
+    let steps = r.u("steps");
+    let all = Req::parse(&format!("o {}", out)).ok_or("unparsable")?;
+    // OPEN FINDING findings/C03-resolve-after-nan: a solve that leaves non-finite numbers in the
+    // solver's buffers (NumericalError with a NaN iterate) poisons every later solve on the same
+    // object (`Px = P·x + 0·Px_stale`, ...): its figures are NaN although the returned point is
+    // finite.  Without `strict=1` the re-evaluation on the user's data is skipped for the solves
+    // after such a solve (everything else is still judged); the finding's replays and the family
+    // `VERIF_C03_STALE_NAN` carry `strict=1`.
+    let strict = r.has("strict");
+    let mut poisoned = false;
+    for k in 0..=steps {
+        if k > 0 {
+            if all.u(&format!("upd_{}", k)) != 1 {
+                return Err(format!("step {}: update_q / update_b was refused although no presolve / decomposition is active", k));
+            }
+            if r.has(&format!("q_{}", k)) {
+                p.q = r.fs(&format!("q_{}", k));
+            }
+            if r.has(&format!("b_{}", k)) {
+                p.b = r.fs(&format!("b_{}", k));
+            }
+        }
+        let st = sets_at(r, k);
+        let sfx = format!("_{}", k);
+        check_bookkeeping(&all, &sfx).map_err(|e| format!("solve #{} of the history: {}", k, e))?;
+        check_one_report(&p, &st, out, &all, &sfx, !poisoned || strict).map_err(|e| {
+            format!("solve #{} of the history{}: {}", k, if poisoned { " (KF-C03-resolve-after-nan: an earlier solve on this object left non-finite numbers)" } else { "" }, e)
+        })?;
+        let nonfinite = |key: &str| all.fs(&format!("{}{}", key, sfx)).iter().any(|v| !v.is_finite());
+        poisoned |= nonfinite("sx") || nonfinite("ss") || nonfinite("sz") || all.fs(&format!("info{}", sfx))[..9].iter().any(|v| !v.is_finite());
+    }
+    Ok(())
+}
+
+fn run_info_reset(r: &Req) -> String {
+    let mut info = info_from_req(r);
+    info.solve_time = 3.5;
+    let mut timers = clarabel::timers::Timers::default();
+    Info::reset(&mut info, &mut timers);
+    let a = info_to_text(&info);
+    let t0 = info.solve_time;
+    Info::save_scalars(&mut info, 0.25, 0.5, 0.75, r.u("iter") as u32);
+    let b = info_to_text(&info);
+    // fields outside the model's `InfoS`: checked here, reported as a token the model never prints
+    if t0 != 0.0 {
+        return "reset-left-solve_time".into();
+    }
+    if info.μ != 0.25 || info.step_length != 0.5 || info.sigma != 0.75 {
+        return "save_scalars-lost-a-scalar".into();
+    }
+    format!("{} ; {}", a, b)
+}
+/// oracle: after `reset` the status is Unsolved, iterations and solve_time are 0 and the fifteen
+/// figures are untouched; `save_scalars` writes the four scalars it is given and nothing else
+fn oracle_info_reset(r: &Req, out: &str) -> Result<(), String> {
+    let parts: Vec<&str> = out.split(" ; ").collect();
+    if parts.len() != 2 {
+        return Err(format!("reset / save_scalars: {}", out));
+    }
+    let a = Req::parse(&format!("o {}", parts[0])).ok_or("unparsable")?;
+    let b = Req::parse(&format!("o {}", parts[1])).ok_or("unparsable")?;
+    if a.u("status") != 0 || a.u("iterations") != 0 {
+        return Err("reset: status / iterations not reset".into());
+    }
+    if b.u("status") != 0 || b.u("iterations") != r.u("iter") {
+        return Err("save_scalars: iterations not saved or status touched".into());
+    }
+    let (x, y, z) = (r.fs("info"), a.fs("info"), b.fs("info"));
+    for j in 0..15 {
+        if !same(x[j], y[j]) || !same(x[j], z[j]) {
+            return Err(format!("reset / save_scalars changed figure #{}", j));
+        }
+    }
+    Ok(())
+}
+
+fn report_channels() -> Vec<Channel> {
+    let mut v = all_channels();
+    v.push(Channel { name: "report", tol: Tol::Exact, run: run_report, oracle: Some(oracle_report), modelled: false,
+        rust_fn: "DefaultSolver::new, then (settings change, update_q, update_b, solve)* on the same object; observer on",
+        lean: "(oracle only: C03.report_on_user_data, full_report_figures_of_returned_iterate, full_final_status_is_post_process, full_report_not_stale re-derived on the implementation)" });
+    v.push(Channel { name: "info.reset", tol: Tol::Exact, run: run_info_reset, oracle: Some(oracle_info_reset), modelled: true,
+        rust_fn: "DefaultInfo::reset, DefaultInfo::save_scalars", lean: "Info.reset, Info.saveScalars / C03.reset_then_update_not_stale, C03.full_reset_is_info_reset" });
+    v
+}
+
+/// reduced tolerances that differ per field (and from the full ones)
+fn random_rtol(s: &mut Session) -> [f64; 6] {
+    let mut t = [0.0; 6];
+    for j in 0..5 {
+        t[j] = 10f64.powf(s.rng.uniform(-9.0, 0.0));
+    }
+    // one of the two gap tolerances unattainable: the verdict then hangs on the other one alone
+    // (a reduced gap_rel read from gap_abs, or vice versa, flips it)
+    match s.rng.below(6) {
+        0 => t[0] = 1e-30,
+        1 => t[1] = 1e-30,
+        _ => {}
+    }
+    // the gate (1/reduced_tol_ktratio)*1000 stays >= 1 (beyond it: known finding of C02)
+    t[5] = 10f64.powf(s.rng.uniform(-6.0, 2.5));
+    t
+}
+/// reduced tolerances so loose that even a starting point meets them: a limit reached at
+/// iteration 0 (time_limit = 0, max_iter = 0) must then be re-labelled AlmostSolved
+fn loose_rtol(s: &mut Session) -> [f64; 6] {
+    let mut t = random_rtol(s);
+    for j in 0..3 {
+        t[j] = 10f64.powf(s.rng.uniform(3.0, 12.0));
+    }
+    t
+}
+
+struct Step {
+    q: Option<Vec<f64>>,
+    b: Option<Vec<f64>>,
+    mi: Option<u32>,
+    tl: Option<f64>,
+    tol: Option<[f64; 6]>,
+    rtol: Option<[f64; 6]>,
+}
+impl Step {
+    fn none() -> Step {
+        Step { q: None, b: None, mi: None, tl: None, tol: None, rtol: None }
+    }
+}
+
+fn submit_report(s: &mut Session, p: &Prob, st: &Sets, steps: &[Step], family: &str) -> String {
+    submit_report_opt(s, p, st, steps, family, false)
+}
+
+fn submit_report_opt(s: &mut Session, p: &Prob, st: &Sets, steps: &[Step], family: &str, strict: bool) -> String {
+    let mut st = st.clone();
+    if steps.iter().any(|x| x.q.is_some() || x.b.is_some()) {
+        st.presolve = false; // data updates are refused on a presolved problem
+    }
+    let mut l = Line::new("report");
+    if strict {
+        // the tag goes first: failure records keep only the head of the input
+        l = l.s("kf", "KF-C03-resolve-after-nan").u("strict", 1);
+    }
+    let mut l = st.put(put_prob(l, p)).s("check", "c03").u("steps", steps.len());
+    for (k, x) in steps.iter().enumerate() {
+        let k = k + 1;
+        if let Some(q) = &x.q {
+            l = l.fs(&format!("q_{}", k), q);
+        }
+        if let Some(b) = &x.b {
+            l = l.fs(&format!("b_{}", k), b);
+        }
+        if let Some(v) = x.mi {
+            l = l.u(&format!("mi_{}", k), v as usize);
+        }
+        if let Some(v) = x.tl {
+            l = l.f(&format!("tl_{}", k), v);
+        }
+        if let Some(v) = &x.tol {
+            l = l.fs(&format!("tol_{}", k), v);
+        }
+        if let Some(v) = &x.rtol {
+            l = l.fs(&format!("rtol_{}", k), v);
+        }
+    }
+    let out = s.submit(l.done());
+    s.count(&format!("report-family:{}", family));
+    if out.starts_with("panic") {
+        return out;
+    }
+    if let Some(all) = Req::parse(&format!("o {}", out)) {
+        let mut prev = 99;
+        for k in 0..=steps.len() {
+            let key = format!("status_{}", k);
+            if !all.has(&key) {
+                break;
+            }
+            let stt = all.u(&key);
+            s.count(&format!("report-status:{}", ST_NAMES[stt]));
+            let pre = all.u(&format!("pre_{}", k));
+            if pre != stt {
+                s.count(&format!("report-relabelled:{}->{}", ST_NAMES[pre.min(10)], ST_NAMES[stt]));
+            }
+            if all.b(&format!("rolled_back_{}", k)) {
+                s.count(&format!("report-rolled-back:{}", ST_NAMES[stt]));
+            }
+            if k > 0 && prev != stt {
+                s.count("report-verdict-flip");
+            }
+            if k > 0 && all.fs(&format!("info_{}", k - 1))[..9].iter().any(|v| !v.is_finite()) {
+                s.count(&format!("report-after-nonfinite-solve:{}", ST_NAMES[stt]));
+            }
+            prev = stt;
+        }
+    }
+    out
+}
+
+/// OPEN FINDING findings/C03-resolve-after-nan (not part of the default run: it fails on the
+/// unchanged tree): a first solve with unattainable tolerances and no regularisation that ends
+/// with a NaN iterate, then a second solve on the same object with ordinary tolerances, judged
+/// in full (`strict=1`)
+fn stale_nan_family(s: &mut Session, n: usize) {
+    for k in 0..n {
+        let ill = s.rng.bool(0.4);
+        let p = plant(s, Plant::Feasible, k % 3 == 0, ill, false);
+        let mut st = random_sets(s);
+        st.tol = [0.0, 0.0, 0.0, 1e-15, 1e-15, 1e-6];
+        if k % 2 == 0 {
+            st.sreg = false;
+        }
+        let mut s1 = Step::none();
+        s1.tol = Some([1e-8, 1e-8, 1e-8, 1e-8, 1e-8, 1e-6]);
+        submit_report_opt(s, &p, &st, &[s1], "stale-nan", true);
+    }
+}
+
+fn gen_report(s: &mut Session) {
+    // (1) iteration limits k = 0..10 with reduced tolerances that differ per field
+    for k in 0..s.budget(240, 4000) {
+        let kind = match k % 5 {
+            0 => Plant::PrimalInfeasible,
+            1 => Plant::DualInfeasible,
+            _ => Plant::Feasible,
+        };
+        let infb = s.rng.bool(0.15);
+        let p = if k % 3 == 0 { plant_cost_scaled(s, k % 6 == 0) } else { plant(s, kind, k % 4 == 0, false, infb) };
+        let mut st = random_sets(s);
+        st.max_iter = (k % 11) as u32;
+        st.rtol = if k % 7 == 3 { loose_rtol(s) } else { random_rtol(s) };
+        // a second solve with the full budget, a third one with a small one again
+        let mut s1 = Step::none();
+        s1.mi = Some(200);
+        let mut s2 = Step::none();
+        s2.mi = Some(s.rng.below(12) as u32);
+        s2.rtol = Some(random_rtol(s));
+        let steps = if k % 2 == 0 { vec![s1, s2] } else { vec![] };
+        submit_report(s, &p, &st, &steps, "max-iter-0-10");
+    }
+    // (2) time limit 0, then lifted
+    for k in 0..s.budget(90, 1500) {
+        let p = plant(s, Plant::Feasible, k % 4 == 0, false, false);
+        let mut st = random_sets(s);
+        st.time_limit = 0.0;
+        st.rtol = if k % 2 == 0 { loose_rtol(s) } else { random_rtol(s) };
+        let mut s1 = Step::none();
+        s1.tl = Some(f64::INFINITY);
+        let mut s2 = Step::none();
+        s2.tl = Some(0.0);
+        submit_report(s, &p, &st, &[s1, s2], "time-limit-0");
+    }
+    // (3) insufficient progress: tolerances that cannot be met, exp / pow / genpow cones included
+    for k in 0..s.budget(170, 3000) {
+        let kind = if k % 4 == 3 { Plant::PrimalInfeasible } else { Plant::Feasible };
+        let ill = s.rng.bool(0.4);
+        let p = plant(s, kind, k % 3 != 2, ill, false);
+        let mut st = random_sets(s);
+        let t = *s.rng.choose(&[1e-15, 1e-30, 1e-13, 0.0]);
+        st.tol = [t, t, t, 1e-15, 1e-15, 1e-6];
+        st.rtol = random_rtol(s);
+        if k % 5 == 0 {
+            st.sreg = false;
+        }
+        // second solve on the same object with attainable tolerances
+        let mut s1 = Step::none();
+        s1.tol = Some([1e-8, 1e-8, 1e-8, 1e-8, 1e-8, 1e-6]);
+        let steps = if k % 2 == 0 { vec![s1] } else { vec![] };
+        submit_report(s, &p, &st, &steps, "unattainable-tolerances");
+    }
+    // (4) numerical breakdown: badly scaled data, no regularisation
+    for k in 0..s.budget(130, 2500) {
+        let (p, mut st) = degenerate(s);
+        st.rtol = random_rtol(s);
+        let mut s1 = Step::none();
+        s1.mi = Some(s.rng.below(8) as u32);
+        let steps = if k % 3 == 0 { vec![s1] } else { vec![] };
+        submit_report(s, &p, &st, &steps, "degenerate");
+    }
+    // (5) data updates with verdict flips on one object, settings changing in between
+    for k in 0..s.budget(170, 3000) {
+        let h = plant_history(s, k % 4 == 0);
+        let mut st = random_sets(s);
+        st.rtol = random_rtol(s);
+        if k % 3 == 0 {
+            st.max_iter = s.rng.below(9) as u32;
+        }
+        let mut steps = vec![];
+        for (q, b) in &h.steps {
+            let mut x = Step::none();
+            x.q = Some(q.clone());
+            x.b = Some(b.clone());
+            match s.rng.below(4) {
+                0 => x.mi = Some(s.rng.below(10) as u32),
+                1 => x.mi = Some(200),
+                2 => x.rtol = Some(random_rtol(s)),
+                _ => {}
+            }
+            steps.push(x);
+        }
+        submit_report(s, &h.base, &st, &steps, "history");
+    }
+    // (6) the modelled `reset` / `save_scalars`
+    for _ in 0..s.budget(150, 3000) {
+        let special = [0.0, -0.0, f64::NAN, f64::INFINITY, f64::NEG_INFINITY, f64::MAX, f64::MIN_POSITIVE, 5e-324];
+        let a: Vec<f64> = (0..15)
+            .map(|_| if s.rng.bool(0.15) { *s.rng.choose(&special) } else { s.rng.logmag(-300.0, 300.0) })
+            .collect();
+        let l = info_line(Line::new("info.reset"), &a, s.rng.below(300), s.rng.below(11)).u("iter", s.rng.below(250));
+        s.submit(l.done());
+    }
+}
+
 fn generate(s: &mut Session) {
+    if let Ok(v) = std::env::var("VERIF_C03_STALE_NAN") {
+        // exploratory: only the family of the open finding, `v` histories
+        stale_nan_family(s, v.parse().unwrap_or(2000));
+        return;
+    }
     // ordinary terminations
     for k in 0..s.budget(700, 10000) {
         let kind = match k % 4 {
@@ -104,8 +736,10 @@ fn generate(s: &mut Session) {
     }
     // the modelled functions on constructed inputs (correspondence + their own oracles)
     gen_components(s, 2.0);
+    // round 3: report-specific families
+    gen_report(s);
 }
 
 fn main() {
-    Session::from_args("C03", all_channels()).run(generate)
+    Session::from_args("C03", report_channels()).run(generate)
 }
